@@ -96,9 +96,17 @@ def r1_reheapify(ctx: Context, rule="C16.R1") -> None:
                   f"`{norm(mnode)[:60]}` changes the heap's backing list and some path leaves remove_event without "
                   "heapify(): the heap shape is not restored and later pops can come out of (time, type) order")
     rh = method(eq, "reheapify")
-    ok = any(dotted(c.func) == "heapq.heapify" and c.args and is_self_attr(c.args[0], "_event_queue") for c in calls_in(rh))
+    hcalls = [c for c in calls_in(rh) if dotted(c.func) == "heapq.heapify" and c.args and is_self_attr(c.args[0], "_event_queue")]
+    ok = bool(hcalls)
     ctx.check(ok, rule, "EventQueue.reheapify|heapq.heapify(self._event_queue)", loc(rh), "heapify on the backing list",
               "reheapify does not heapify the backing list")
+    if hcalls:
+        # ... on every path: a size (or any other) guard leaves small queues out of order after an in-place re-timing
+        grh = cfgmod.build(rh)
+        every = not grh.reachable_from_entry(grh.ret, {grh.node_of(c).id for c in hcalls})
+        ctx.check(every, rule, "EventQueue.reheapify|heapify on every path", loc(hcalls[0]), "unconditional",
+                  "some path through reheapify() skips heapq.heapify: after a queued event was re-timed in place the queue is left out of order "
+                  "on that path (e.g. a two-element queue whose later event was pulled to the front)")
 
 
 ALLOWED_LIST_USES = {"heappush", "heappop", "heapify", "len", "filter", "list", "iter", "sorted", "min"}
